@@ -139,6 +139,8 @@ class FunctionEngine(CallsMixin, Engine):
                 ok = isinstance(v.loc, CellLoc) and v.loc.n in st.alloc and not isinstance(st.heap[v.loc.n], tuple)
                 return V(BOOL, z3.BoolVal(bool(ok)))
             raise Unsupported('fresh() on non-container')
+        if f == 'nondet':
+            return V(BOOL, z3.Bool(fresh_name('nondet')))
         if f == 'allocated':
             v = self.eval(a[0], st)
             return V(BOOL, T.Sel(self.alloc_map(st), v.t))
